@@ -28,7 +28,6 @@ LEVEL_NOTE = ('Trusted: the model (written from the dart-sass algorithm), the ca
               'copies of the parent rule are both accepted).')
 TECHNIQUE = 'runtime monitoring: generated nested rules judged by a reference model of parent-selector resolution'
 
-DECL = re.compile(r'^p(\d+)$')
 DEVS = [('suffix-canonical-last', 'amp-suffix-continues-canonically-last-simple-of-parent')]
 
 
@@ -50,37 +49,8 @@ def source(case):
 
 # ------------------------------------------------------------------ reading the output
 
-def read_output(text):
-    """-> (decls: serial -> [(doc index, canonical selector or None, raw prelude)], problems [(sig, detail)])"""
-    decls, problems = {}, []
-    try:
-        nodes = css.parse(css.strip_header(text))
-    except css.ParseProblem as e:
-        return decls, [('output-unreadable', str(e))]
-    idx = 0
-    for nd in nodes:
-        if nd['t'] == 'comment':
-            continue
-        if nd['t'] != 'rule' or nd['prelude'].startswith('@'):
-            problems.append(('output-unexpected-node', str(nd)[:200]))
-            continue
-        raw = nd['raw_prelude'].strip()
-        c = sg.canon_or_none(raw)
-        for b in nd['body']:
-            if b['t'] == 'comment':
-                continue
-            m = DECL.match(b.get('name', '')) if b['t'] == 'decl' else None
-            if not m or b['value'].strip() != m.group(1):
-                problems.append(('output-unexpected-node', '%s in %s' % (str(b)[:120], raw[:80])))
-                continue
-            decls.setdefault(int(m.group(1)), []).append((idx, c, raw))
-            idx += 1
-    return decls, problems
-
-
-def unhidden_placeholder(raw):
-    """`%name` in an emitted selector, outside strings"""
-    return any(k == 'other' and re.search(r'%[A-Za-z_-]', t) for k, t in css.scan(raw))
+read_output = ng.read_output
+unhidden_placeholder = ng.unhidden_placeholder
 
 
 # ------------------------------------------------------------------ the oracle
